@@ -3,17 +3,33 @@
 Correspondence: Lean `Sort.display` (decorate / extract / mergeSort with the lexicographic
 field comparator) vs the order in which the real `<dtml-in … sort=…>` shows the elements.
 Oracle (independent of the model): permutation, ordered by the keys, stable, None first,
-reverse exact, caller's sequence untouched.
+reverse exact, caller's sequence untouched; when no key is None / missing the shown order is
+compared with the one stable order the property allows (Python's own `sorted` on the key codes).
+
+Comparison functions: the built-in ones (cmp, nocase, locale / strcoll / locale_nocase /
+strcoll_nocase) and functions found in the namespace.  The latter follow the classic cmp protocol
+(negative / zero / positive): the family below returns the sign in many numeric disguises (float,
+fractions below 1, Fraction, Decimal, huge ints, infinities, -0.0 for "equal") and as the
+difference of the keys, and is handed to the template as keyword, as attribute of the client or in
+the mapping argument, under its own name or under an alias that other renderings bind to another
+function.
 """
 import copy
 import datetime
 import decimal
+import fractions
 import functools
 import json
+import locale      # before DocumentTemplate: DT_In offers locale / strcoll only if locale is already imported
 
 import common
 
-KINDS = ['int', 'str', 'float', 'bool', 'date', 'Decimal', 'callable', 'strnc']
+KINDS = ['int', 'str', 'float', 'bool', 'date', 'Decimal', 'callable', 'strnc',
+         'floatnear', 'num', 'intwide', 'callnear']
+# keys of plain items / 2-tuples (empty sort, sort=sequence-item)
+ITEM_KINDS = ['int', 'str', 'int', 'str', 'floatnear', 'num', 'intwide', 'Decimal', 'date', 'bool']
+NEAR = [-0.25, 0.1, 0.3, 0.75]              # floats closer together than 1, both signs
+WIDE = [-2 ** 70, -1, 0, 2 ** 70]           # ints beyond the machine word
 
 
 class Obj:
@@ -52,6 +68,23 @@ def mk_key(kind, code, r):
         return decimal.Decimal(code) / 4, {'a': 'nonbasic', 'k': code}
     if kind == 'callable':
         return (lambda c=code: c), {'a': 'callable', 'k': code}
+    if kind == 'floatnear':
+        return NEAR[code % 4], {'a': 'plain', 'k': code % 4}
+    if kind == 'callnear':
+        return (lambda c=code: NEAR[c % 4]), {'a': 'callable', 'k': code % 4}
+    if kind == 'intwide':
+        return WIDE[code % 4], {'a': 'plain', 'k': code % 4}
+    if kind == 'num':
+        # the number code/2 in one of its spellings: 1 == 1.0 == True are equal keys that print differently,
+        # so stability is observable even on plain items
+        v = code / 2.0
+        forms = [v]
+        if v == int(v):
+            forms.append(int(v))
+            if v in (0, 1):
+                forms.append(bool(v))
+        pv = r.choice(forms)
+        return pv, {'a': 'nonbasic' if isinstance(pv, bool) else 'plain', 'k': code}
     raise ValueError(kind)
 
 
@@ -63,29 +96,133 @@ def rcmp(a, b):
     return (b > a) - (b < a)
 
 
+def _low(v):
+    return v.lower() if isinstance(v, str) else v
+
+
+def _diff(a, b):
+    """the classic `return a - b` comparison function (dates: difference in weeks); keys that cannot be
+    subtracted (strings, the smallest-value marker) are compared with < and >"""
+    try:
+        d = a - b
+    except TypeError:
+        return cmp(a, b)
+    if isinstance(d, datetime.timedelta):
+        d = d.total_seconds() / 604800.0
+    return d
+
+
+CONVS = {
+    'sign': lambda s: s,
+    'float': lambda s: float(s) if s else -0.0,
+    'frac': lambda s: s * 0.25,
+    'tiny': lambda s: s * 1e-9,
+    'fraction': lambda s: fractions.Fraction(s, 3),
+    'decimal': lambda s: decimal.Decimal(s) / 8,
+    'big': lambda s: s * 2 ** 70,
+    'inf': lambda s: s * float('inf') if s else 0,
+}
+CONV_NAMES = sorted(CONVS) + ['diff', 'diff']
+
+
+def user_fn(base, conv):
+    """comparison function with the meaning of `base` (cmp / rcmp = reversed cmp / nocase) that
+    reports its verdict the way `conv` says"""
+    if conv == 'diff':
+        if base == 'cmp':
+            return _diff
+        if base == 'rcmp':
+            return lambda a, b: _diff(b, a)
+        return lambda a, b: _diff(_low(a), _low(b))
+    cv = CONVS[conv]
+    if base == 'cmp':
+        return lambda a, b: cv(cmp(a, b))
+    if base == 'rcmp':
+        return lambda a, b: cv(rcmp(a, b))
+    return lambda a, b: cv(cmp(_low(a), _low(b)))
+
+
+class Client:
+    """the `client` argument of a template call: its attributes are names of the namespace"""
+
+
+_locale_ok = None
+
+
+def locale_ok():
+    """are the locale comparison functions there, and is the collation order the code point order?"""
+    global _locale_ok
+    if _locale_ok is None:
+        from DocumentTemplate import DT_In
+        _locale_ok = (hasattr(DT_In, 'strcoll') and hasattr(DT_In, 'strcoll_nocase')
+                      and locale.setlocale(locale.LC_COLLATE) in ('C', 'POSIX'))
+    return _locale_ok
+
+
+def gen_field(r, i):
+    kind = r.choice(KINDS)
+    f = {'name': 'k%d' % i, 'type': kind, 'fn': None, 'conv': None, 'alias': None, 'nonone': False}
+    c = r.random()
+    if kind == 'strnc' and c < 0.85:
+        fk = 'nocase'
+        if c < 0.5:
+            pass                                    # the built-in nocase
+        elif c < 0.65:
+            f['fn'], f['nonone'] = r.choice(['locale_nocase', 'strcoll_nocase']), True
+        else:
+            f['conv'] = r.choice(CONV_NAMES)        # a nocase of the caller's own
+    elif kind in ('str', 'strnc') and r.random() < 0.25:
+        fk, f['fn'], f['nonone'] = 'cmp-explicit', r.choice(['locale', 'strcoll']), True
+    else:
+        c = r.random()
+        if c < 0.35:
+            fk = 'cmp'
+        elif c < 0.5:
+            fk = 'cmp-explicit'
+        elif c < 0.6:
+            fk = 'rcmp'                             # the function named rcmp: -1 / 0 / 1
+        else:
+            fk = r.choice(['cmp-explicit', 'rcmp'])
+            f['conv'] = r.choice(CONV_NAMES)
+    if f['nonone'] and not locale_ok():
+        f['fn'] = None                              # locale functions not on offer: built-in cmp / nocase
+    if f['conv']:
+        base = {'cmp-explicit': 'cmp'}.get(fk, fk)
+        f['fn'] = 'u_%s_%s' % (base, f['conv'])
+        if r.random() < 0.5:
+            # an alias: the same name in the same (shared) template means another function next time
+            f['alias'] = 'fn%d' % i
+    f['kind'] = fk
+    f['desc'] = r.random() < 0.3
+    c = r.random()
+    if f['desc']:
+        f['dirword'] = 'desc' if c < 0.7 else r.choice(['DESC', 'Desc'])
+    else:
+        f['dirword'] = None if c < 0.75 else r.choice(['asc', 'ASC', 'Asc'])
+    return f
+
+
 def gen_case(r, tier):
     n = r.choice([0, 1, 2, 3, 4, 5, 6, 7, 8])
     nfields = r.choice([0, 1, 1, 1, 2, 2])
     fields = []
     for i in range(nfields):
-        kind = r.choice(KINDS)
-        fk = 'nocase' if kind == 'strnc' and r.random() < 0.8 else r.choice(['cmp', 'cmp', 'cmp-explicit', 'rcmp'])
-        fields.append({'name': 'k%d' % i, 'type': kind, 'kind': fk, 'desc': r.random() < 0.3})
-    if nfields and all(f['kind'] == 'cmp' and not f['desc'] for f in fields) and r.random() < 0.2:
-        pass
+        fields.append(gen_field(r, i))
     container = r.choice(['obj', 'obj', 'mapping', 'tuple'])
     if nfields == 0:
         container = r.choice(['plain', 'tuple'])
     rows, elems = [], []
     dom = r.choice([2, 3, 4])
-    item_kind = r.choice(['int', 'str'])
+    item_kind = r.choice(ITEM_KINDS)
     for eid in range(n):
         row, attrs = [], {}
         for f in fields:
             c = r.random()
             code = None if c < 0.12 else ('missing' if c < 0.18 else r.randrange(dom))
-            if f['type'] == 'callable' and code == 'missing':
+            if f['type'] in ('callable', 'callnear') and code == 'missing':
                 code = None
+            if f['nonone'] and not isinstance(code, int):
+                code = r.randrange(dom)     # the locale functions take strings only
             pv, mv = mk_key(f['type'], code, r)
             row.append(mv)
             if code != 'missing':
@@ -110,19 +247,26 @@ def gen_case(r, tier):
     return {'fields': fields, 'rows': rows, 'container': container, 'reverse': r.random() < 0.3,
             'via': r.choice(['sort', 'sort', 'sort_expr']), 'rev_via': r.choice(['reverse', 'reverse_expr']),
             'seqtype': r.choice(['list', 'tuple', 'iter']), 'batch': r.choice([None, None, None, 2, 3]),
-            'elems': elems, 'sorted': nfields > 0 or r.random() < 0.8,
-            'isort_spelling': r.choice(['', 'sequence-item'])}
+            'elems': elems, 'sorted': nfields > 0 or r.random() < 0.8, 'item_kind': item_kind,
+            'isort_spelling': r.choice(['', 'sequence-item']), 'fn_via': r.choice(['kw', 'kw', 'client', 'mapping'])}
     # (sort_expr evaluating to 'sequence-item' is not special-cased by the tag; only sort= is)
+
+
+def spec_of(case):
+    if not case['sorted']:
+        return None
+    return sort_spec(case) if case['fields'] else case['isort_spelling']
 
 
 def sort_spec(case):
     parts = []
-    explicit = any(f['kind'] != 'cmp' or f['desc'] for f in case['fields'])
     for f in case['fields']:
         p = f['name']
-        k = {'cmp': None, 'cmp-explicit': 'cmp', 'nocase': 'nocase', 'rcmp': 'rcmp'}[f['kind']]
-        if f['desc']:
-            p += '/%s/desc' % (k or 'cmp')
+        k = f.get('alias') or f.get('fn') or {'cmp': None, 'cmp-explicit': 'cmp', 'nocase': 'nocase',
+                                              'rcmp': 'rcmp'}[f['kind']]
+        word = f.get('dirword') or ('desc' if f['desc'] else None)
+        if word:
+            p += '/%s/%s' % (k or 'cmp', word)      # "to specify sort order you cannot omit the function"
         elif k:
             p += '/' + k
         parts.append(p)
@@ -145,7 +289,21 @@ def template(src):
 
 def observe(case):
     attrs = []
-    kw = {'rcmp': rcmp}
+    kw = {}
+    names = {'rcmp': rcmp}
+    for f in case['fields']:
+        if f.get('conv'):
+            names[f.get('alias') or f['fn']] = user_fn(f['fn'].split('_')[1], f['conv'])
+    # where the namespace finds the comparison functions: keyword / attribute of the client / mapping argument
+    args = ()
+    if case.get('fn_via') == 'client':
+        client = Client()
+        client.__dict__.update(names)
+        args = (client,)
+    elif case.get('fn_via') == 'mapping':
+        args = (None, dict(names))
+    else:
+        kw.update(names)
     if case['sorted']:
         spec = sort_spec(case) if case['fields'] else case['isort_spelling']
         if case['via'] == 'sort_expr' and not (not case['fields'] and spec == 'sequence-item'):
@@ -162,19 +320,19 @@ def observe(case):
         attrs.append('mapping')
     if case['batch']:
         attrs.append('size=%d' % case['batch'])
-    body = '<dtml-var sequence-index>,' if case['container'] == 'plain' else '<dtml-var eid>,'
+    body = '<dtml-var sequence-item>,' if case['container'] == 'plain' else '<dtml-var eid>,'
     src = '<dtml-in L %s>%s</dtml-in>' % (' '.join(attrs), body)
     elems = case['elems']
     snapshot = list(elems)
     L = elems if case['seqtype'] == 'list' else (tuple(elems) if case['seqtype'] == 'tuple' else iter(list(elems)))
     before = copy.copy(L) if case['seqtype'] != 'iter' else None
     try:
-        out = template(src)(L=L, **kw)
+        out = template(src)(*args, L=L, **kw)
     except Exception as e:  # noqa
         return {'src': src, 'exc': type(e).__name__ + ': ' + str(e)[:60]}
     res = {'src': src, 'raw': out}
     if case['container'] == 'plain':
-        res['raw_is_index'] = True
+        res['raw_is_item'] = True
     res['mutated'] = (case['seqtype'] != 'iter' and (L != before or any(a is not b for a, b in zip(L, snapshot))))
     return res
 
@@ -235,7 +393,7 @@ def canon(case, ids):
 def displayed_ids(case, obs):
     toks = [t for t in obs['raw'].split(',') if t != '']
     if case['container'] == 'plain':
-        return None    # plain items: compare the shown *values* instead (indexes are positions after sort)
+        return None    # plain items: the shown *values* are compared (oracle_plain)
     return [int(t) for t in toks]
 
 
@@ -250,13 +408,68 @@ def pyval(case, eid, fi):
     return k
 
 
+def cmp_elts(case, a, b):
+    """what the sort spec says about elements a and b, from the key codes alone"""
+    nf = len(case['rows'][0]) if case['rows'] else 0
+    fields = case['fields'] or [{'kind': 'cmp', 'desc': False}]
+    for fi in range(nf):
+        x, y = pyval(case, a, fi), pyval(case, b, fi)
+        if x is None and y is None:
+            if cmp_path(case):
+                return 0      # unspecified from here on
+            c = 0
+        elif x is None:
+            c = -1
+        elif y is None:
+            c = 1
+        else:
+            c = (x > y) - (x < y)
+        if fields[fi]['kind'] == 'rcmp':
+            c = -c
+        if fields[fi]['desc']:
+            c = -c
+        if c:
+            return c
+    return 0
+
+
+def any_none(case):
+    return any(has_none(case, e) for e in range(len(case['rows'])))
+
+
+def expected_order(case):
+    """the one order the property allows when no key is None / missing: Python's stable sort of the
+    positions under the spec's comparison, then the exact reverse"""
+    want = list(range(len(case['rows'])))
+    if case['sorted']:
+        want = sorted(want, key=functools.cmp_to_key(lambda a, b: cmp_elts(case, a, b)))
+    if case['reverse']:
+        want.reverse()
+    return want
+
+
+def oracle_plain(case, obs):
+    """plain items show themselves: the shown texts must be those of the expected order (equal keys
+    that print differently - 1, 1.0, True - make stability visible)"""
+    bad = []
+    if obs.get('mutated'):
+        bad.append("the caller's sequence was modified")
+    toks = [t for t in obs['raw'].split(',') if t != '']
+    want = [str(case['elems'][e]) for e in expected_order(case)]
+    if case['batch']:
+        want = want[:len(toks)]
+    if toks != want:
+        bad.append('plain items shown as %s, expected %s' % (toks, want))
+    return bad
+
+
 def oracle(case, obs, ids):
     bad = []
     n = len(case['rows'])
+    if ids is None:
+        return oracle_plain(case, obs)
     if obs.get('mutated'):
         bad.append("the caller's sequence was modified")
-    if ids is None:
-        return bad
     full = case['batch'] is None
     if full and sorted(ids) != list(range(n)):
         bad.append('displayed elements %s are not a permutation of 0..%d' % (ids, n - 1))
@@ -270,34 +483,21 @@ def oracle(case, obs, ids):
         if ids != want:
             bad.append('unsorted display order %s, expected %s' % (ids, want))
         return bad
+    if not any_none(case):
+        # no unspecified mutual order anywhere: exactly one order is right (also for a window of it)
+        want = expected_order(case)
+        if case['batch']:
+            want = want[:len(ids)]
+        if ids != want:
+            bad.append('shown in the order %s, the stable order by the keys%s is %s' % (
+                ids, ' reversed' if case['reverse'] else '', want))
+            return bad
     seq = list(reversed(ids)) if case['reverse'] else ids
     if case['reverse'] and case['batch']:
-        return bad    # a window of the reversed order: checked by correspondence only
-    nf = len(case['rows'][0]) if case['rows'] else 0
+        return bad    # a window of the reversed order with None keys: checked by correspondence only
     fields = case['fields'] or [{'kind': 'cmp', 'desc': False}]
-
-    def cmp_elts(a, b):
-        for fi in range(nf):
-            x, y = pyval(case, a, fi), pyval(case, b, fi)
-            if x is None and y is None:
-                if cmp_path(case):
-                    return 0      # unspecified from here on
-                c = 0
-            elif x is None:
-                c = -1
-            elif y is None:
-                c = 1
-            else:
-                c = (x > y) - (x < y)
-            if fields[fi]['kind'] == 'rcmp':
-                c = -c
-            if fields[fi]['desc']:
-                c = -c
-            if c:
-                return c
-        return 0
     for a, b in zip(seq, seq[1:]):
-        c = cmp_elts(a, b)
+        c = cmp_elts(case, a, b)
         if c > 0:
             bad.append('not ordered: element %d shown before %d (keys %s > %s)' % (
                 a, b, case['rows'][a], case['rows'][b]))
@@ -315,11 +515,20 @@ def oracle(case, obs, ids):
 def run(res, tier, have_driver):
     r = common.rng('C13')
     res.rule = ('lists of 0..8 elements (objects / mappings / 2-tuples / plain items), 0..2 sort fields with keys '
-                'from small domains with duplicates, None and missing, of types int, str, float, bool, date, Decimal, '
-                'callable; cmp / nocase / user function, asc / desc, sort= and sort_expr=, reverse / reverse_expr, '
-                'list / tuple / iterator, optional batch; non-trivial = distinct case with >= 3 elements, a sort '
-                'field and at least one duplicate or None key')
-    n = 5000 if tier == 'quick' else 120000
+                'from small domains with duplicates, None and missing, of types int (also beyond 2**64), str, float '
+                '(also closer together than 1 and negative), bool, date, Decimal, callable (int and float results), '
+                'and numbers that are equal but print differently (1, 1.0, True); plain items and 2-tuple keys of '
+                'all these types, plain items compared by their shown text; comparison function cmp / nocase / '
+                'locale / strcoll / locale_nocase / strcoll_nocase / a function from the namespace with the meaning '
+                'of cmp, reversed cmp or nocase that reports negative-zero-positive as -1/0/1, float, fraction below '
+                '1, 1e-9, Fraction, Decimal, 2**70, infinity, -0.0 for equal, or as the difference of the keys (a - b; '
+                'dates: weeks), found as keyword / client attribute / mapping entry, under its own name or an alias '
+                'that is bound to another function in the next rendering of the same compiled template; asc / desc '
+                'in every spelling (omitted, asc, ASC, Asc, desc, DESC, Desc), sort= and sort_expr=, reverse / '
+                'reverse_expr, list / tuple / iterator, optional batch; when no key is None the shown order '
+                '(also a batch window, also reversed) must equal the unique stable order; non-trivial = distinct '
+                'case with >= 3 elements, a sort field and at least one duplicate or None key')
+    n = 8000 if tier == 'quick' else 160000
     cases, obss, reqs = [], [], []
     for _ in range(n):
         case = gen_case(r, tier)
@@ -332,6 +541,19 @@ def run(res, tier, have_driver):
         for f in case['fields']:
             res.count('keytype=' + f['type'])
             res.count('cmp=' + f['kind'] + ('/desc' if f['desc'] else ''))
+            if f.get('conv'):
+                res.count('userfn_returns=' + f['conv'])
+                res.count('userfn_name=' + ('alias' if f.get('alias') else 'own'))
+                res.count('userfn_via=' + case['fn_via'])
+                if f['conv'] == 'diff' and f['type'] in ('floatnear', 'callnear', 'Decimal', 'num', 'date'):
+                    res.count('userfn_difference_below_1_possible')
+            elif f.get('fn'):
+                res.count('builtin_fn=' + f['fn'])
+            res.count('direction_word=%s' % f.get('dirword'))
+        if not case['fields']:
+            res.count('item_keytype=' + case['item_kind'])
+        if case['sorted'] and 'exc' not in obs and not any_none(case):
+            res.count('exact_order_compared')
         reqs.append(model_req(case))
         if 'exc' in obs:
             nocase_none = any(f['kind'] == 'nocase' and any(row[i]['a'] in ('none', 'missing') for row in case['rows'])
@@ -341,15 +563,17 @@ def run(res, tier, have_driver):
                 res.count('known:C13-nocase-none')
             else:
                 res.oracle_fail.append({'case': {k: v for k, v in case.items() if k != 'elems'},
-                                        'what': 'rendering raised ' + obs['exc'], 'src': obs['src']})
+                                        'what': 'rendering raised ' + obs['exc'], 'src': obs['src'],
+                                        'sort_spec': spec_of(case), 'elems': repr(case['elems'])[:600]})
             continue
         ids = displayed_ids(case, obs)
         for f in oracle(case, obs, ids):
             res.oracle_fail.append({'case': {k: v for k, v in case.items() if k != 'elems'}, 'what': f,
-                                    'src': obs['src'], 'shown': ids})
+                                    'src': obs['src'], 'sort_spec': spec_of(case), 'shown': ids,
+                                    'shown_raw': obs['raw'], 'elems': repr(case['elems'])[:600]})
         keys = [keytuple(case, e) for e in range(len(case['rows']))]
         if len(keys) >= 3 and case['sorted'] and (len(set(keys)) < len(keys) or any(has_none(case, e) for e in range(len(keys)))):
-            res.nt((obs['src'], tuple(keys)))
+            res.nt((obs['src'], spec_of(case), tuple(keys)))
     for i in (0, 7, len(cases) // 2, len(cases) - 1):
         c = {k: v for k, v in cases[i].items() if k != 'elems'}
         res.sample({'case': c, 'observation': {k: v for k, v in obss[i].items()}})
@@ -389,7 +613,8 @@ def search_more(res, tier):
         if 'exc' in obs:
             continue
         for f in oracle(case, obs, displayed_ids(case, obs)):
-            found.append({'case': {k: v for k, v in case.items() if k != 'elems'}, 'what': f, 'src': obs['src']})
+            found.append({'case': {k: v for k, v in case.items() if k != 'elems'}, 'what': f, 'src': obs['src'],
+                          'sort_spec': spec_of(case), 'shown_raw': obs['raw'], 'elems': repr(case['elems'])[:600]})
         if len(found) > 3:
             break
     return found
